@@ -19,7 +19,18 @@
     a tree is owned by one thread.  [None] stands for a failed [assert] of the
     C code (node type tags); the theorems show it never happens.
 
-    Values are C pointers seen as integers; [0] is NULL.  Keys are C [int]s. *)
+    Values are C pointers seen as integers; [0] is NULL.  Keys are C [int]s.
+
+    Two variants of the source are covered by ONE model:
+    - the code without generation tags: a leaf entry is a bare value; layout
+      [cfg_plain] (leaf 136 bytes, pool 256 bytes).  It is the instance in which
+      every generation is 0: [kg = fun _ => 0];
+    - the code with generation tags (repair of the stale-value finding): a leaf
+      entry is [{value, gen}], layout [cfg_tagged] (leaf 264 bytes, pool 384
+      bytes); [set] records the key's current generation [kg idx] next to the
+      value and [get] returns NULL when the recorded generation is not the
+      key's current one.  [kg] is the [gen] column of the key table at the time
+      of the call. *)
 From Coq Require Import ZArith List Bool.
 Import ListNotations.
 Local Open Scope Z_scope.
@@ -31,19 +42,22 @@ Definition NLEAF : Z := 16.   (* myth_tls_tree_node_n_entries_in_leaf *)
 Definition DEPTH : nat := 3.  (* myth_tls_tree_depth *)
 Definition NKEYS : Z := 1024. (* myth_tls_n_keys *)
 Definition SZ_NODE : Z := 40. (* myth_tls_tree_node_sz_node *)
-Definition SZ_LEAF : Z := 136. (* myth_tls_tree_node_sz_leaf *)
-Definition POOL_SZ : Z := 256. (* myth_tls_tree_pre_alloc_sz *)
 Definition EINVAL : Z := 22.
 
+(** layout: [myth_tls_tree_node_sz_leaf], [myth_tls_tree_pre_alloc_sz] *)
+Record cfg := mkCfg { c_leaf : Z; c_pool : Z }.
+Definition cfg_plain : cfg := mkCfg 136 256.     (* entries are bare pointers *)
+Definition cfg_tagged : cfg := mkCfg 264 384.    (* entries are {pointer, unsigned} *)
+
 (** printed by the model driver, compared with the harness' [sizeof]s *)
-Definition consts : list Z :=
-  [Z.of_nat DEPTH; LOGC; LOGL; NKEYS; SZ_NODE; SZ_LEAF; POOL_SZ].
+Definition consts (c : cfg) : list Z :=
+  [Z.of_nat DEPTH; LOGC; LOGL; NKEYS; SZ_NODE; c_leaf c; c_pool c].
 
 Inductive origin := Pool (off : Z) | Heap (id : Z).
 
 Inductive node :=
 | Nil
-| Leaf (o : origin) (es : list Z)
+| Leaf (o : origin) (es : list (Z * Z))      (* 16 entries (value, generation) *)
 | Inner (o : origin) (c0 c1 c2 c3 : node).
 
 (** [root], [pre_alloc_p - pre_alloc_buf], number of [myth_malloc] calls so far *)
@@ -55,15 +69,15 @@ Definition empty : tree := mkTree Nil 0 0.
 (** ** allocation: bump pool first, then [myth_malloc] *)
 Definition ast := (Z * Z)%type.   (* pool pointer offset, heap serial *)
 
-Definition node_alloc (a : ast) (sz : Z) : origin * ast :=
+Definition node_alloc (c : cfg) (a : ast) (sz : Z) : origin * ast :=
   let '(p, h) := a in
-  if p + sz <=? POOL_SZ then (Pool p, (p + sz, h)) else (Heap h, (p, h + 1)).
+  if p + sz <=? c_pool c then (Pool p, (p + sz, h)) else (Heap h, (p, h + 1)).
 
-Definition alloc_node (a : ast) : node * ast :=
-  let '(o, a') := node_alloc a SZ_NODE in (Inner o Nil Nil Nil Nil, a').
+Definition alloc_node (c : cfg) (a : ast) : node * ast :=
+  let '(o, a') := node_alloc c a SZ_NODE in (Inner o Nil Nil Nil Nil, a').
 
-Definition alloc_leaf (a : ast) : node * ast :=
-  let '(o, a') := node_alloc a SZ_LEAF in (Leaf o (repeat 0 (Z.to_nat NLEAF)), a').
+Definition alloc_leaf (c : cfg) (a : ast) : node * ast :=
+  let '(o, a') := node_alloc c a (c_leaf c) in (Leaf o (repeat (0, 0) (Z.to_nat NLEAF)), a').
 
 (** ** index arithmetic, as written in the C code
     at a node with [S l] levels below it (l = depth - i - 1):
@@ -90,7 +104,7 @@ Definition set_child (n : node) (c : Z) (x : node) : node :=
   | _ => n
   end.
 
-Fixpoint upd (l : list Z) (i : nat) (v : Z) : list Z :=
+Fixpoint upd (l : list (Z * Z)) (i : nat) (v : Z * Z) : list (Z * Z) :=
   match l, i with
   | [], _ => []
   | _ :: r, O => v :: r
@@ -102,12 +116,12 @@ Definition is_nil (n : node) : bool := match n with Nil => true | _ => false end
 Definition out_of_range (idx : Z) : bool := (idx <? 0) || (idx >=? NKEYS).
 
 (** ** lookup.  [Absent]: the path to the leaf is not allocated. *)
-Inductive look := Absent | Found (v : Z) | Bad.
+Inductive look := Absent | Found (v g : Z) | Bad.
 
 Fixpoint find_rec (levels : nat) (n : node) (idx : Z) : look :=
   match levels with
   | O => match n with
-         | Leaf _ es => Found (nth (Z.to_nat (lidx idx)) es 0)
+         | Leaf _ es => let e := nth (Z.to_nat (lidx idx)) es (0, 0) in Found (fst e) (snd e)
          | _ => Bad
          end
   | S l => match n with
@@ -122,30 +136,32 @@ Definition look_tree (t : tree) (idx : Z) : look :=
   if out_of_range idx then Absent
   else if is_nil (root t) then Absent else find_rec DEPTH (root t) idx.
 
-(** [myth_tls_tree_get]: NULL when out of range or when the path is missing *)
-Definition get (t : tree) (idx : Z) : option Z :=
+(** [myth_tls_tree_get]: NULL when out of range, when the path is missing, or
+    when the slot was written under another incarnation of the index *)
+Definition get (kg : Z -> Z) (t : tree) (idx : Z) : option Z :=
   match look_tree t idx with
   | Absent => Some 0
-  | Found v => Some v
+  | Found v g => Some (if g =? kg idx then v else 0)
   | Bad => None
   end.
 
 (** ** [myth_tls_tree_set] *)
-Fixpoint set_rec (levels : nat) (n : node) (idx v : Z) (a : ast) : option (node * ast) :=
+Fixpoint set_rec (c : cfg) (levels : nat) (n : node) (idx : Z) (e : Z * Z) (a : ast)
+  : option (node * ast) :=
   match levels with
   | O => match n with
-         | Leaf o es => Some (Leaf o (upd es (Z.to_nat (lidx idx)) v), a)
+         | Leaf o es => Some (Leaf o (upd es (Z.to_nat (lidx idx)) e), a)
          | _ => None
          end
   | S l => match n with
            | Inner _ _ _ _ _ =>
                let ci := cidx idx l in
-               let c := child n ci in
+               let ch := child n ci in
                let '(c1, a1) :=
-                 if is_nil c
-                 then match l with O => alloc_leaf a | S _ => alloc_node a end
-                 else (c, a) in
-               match set_rec l c1 idx v a1 with
+                 if is_nil ch
+                 then match l with O => alloc_leaf c a | S _ => alloc_node c a end
+                 else (ch, a) in
+               match set_rec c l c1 idx e a1 with
                | Some (c2, a2) => Some (set_child n ci c2, a2)
                | None => None
                end
@@ -154,24 +170,24 @@ Fixpoint set_rec (levels : nat) (n : node) (idx v : Z) (a : ast) : option (node 
   end.
 
 (** returns the new tree and the C return value (0 or EINVAL) *)
-Definition set (t : tree) (idx v : Z) : option (tree * Z) :=
+Definition set (c : cfg) (kg : Z -> Z) (t : tree) (idx v : Z) : option (tree * Z) :=
   if out_of_range idx then Some (t, EINVAL)
   else
     let '(r, a) :=
-      if is_nil (root t) then alloc_node (pp t, nheap t)
+      if is_nil (root t) then alloc_node c (pp t, nheap t)
       else (root t, (pp t, nheap t)) in
-    match set_rec DEPTH r idx v a with
+    match set_rec c DEPTH r idx (v, kg idx) a with
     | Some (r', (p', h')) => Some (mkTree r' p' h', 0)
     | None => None
     end.
 
 (** ** every node of the tree with its size, in pre-order (for dumps, for the
     pool theorem and for the teardown theorem of C11) *)
-Fixpoint nodes (n : node) : list (origin * Z) :=
+Fixpoint nodes (c : cfg) (n : node) : list (origin * Z) :=
   match n with
   | Nil => []
-  | Leaf o _ => [(o, SZ_LEAF)]
-  | Inner o c0 c1 c2 c3 => (o, SZ_NODE) :: nodes c0 ++ nodes c1 ++ nodes c2 ++ nodes c3
+  | Leaf o _ => [(o, c_leaf c)]
+  | Inner o c0 c1 c2 c3 => (o, SZ_NODE) :: nodes c c0 ++ nodes c c1 ++ nodes c c2 ++ nodes c c3
   end.
 
 (** shape checker (executable): [levels] levels of internal nodes above leaves
@@ -189,14 +205,17 @@ Fixpoint shapeb (levels : nat) (n : node) : bool :=
 
 (** a sequence of sets from the empty tree (used by drivers and examples);
     [None] = an assertion of the C code would fail *)
-Fixpoint set_all (t : tree) (kvs : list (Z * Z)) : option tree :=
+Fixpoint set_all (c : cfg) (kg : Z -> Z) (t : tree) (kvs : list (Z * Z)) : option tree :=
   match kvs with
   | [] => Some t
-  | (k, v) :: r => match set t k v with
-                   | Some (t', _) => set_all t' r
+  | (k, v) :: r => match set c kg t k v with
+                   | Some (t', _) => set_all c kg t' r
                    | None => None
                    end
   end.
+
+(** the generation column of the code without tags *)
+Definition kg0 : Z -> Z := fun _ => 0.
 
 Fixpoint zrange (lo : Z) (n : nat) : list Z :=
   match n with O => [] | S m => lo :: zrange (lo + 1) m end.
